@@ -70,6 +70,8 @@ impl SpeechGenerator {
             panic!("The length of speech buffer must be larger than fperiod.");
         }
 
+        #[cfg(jbonsai_verif)]
+        crate::verif::yield_point(1);
         self.vocoder.synthesize(
             self.lf0[self.next][0],
             &self.spectrum[self.next],
